@@ -456,6 +456,7 @@ class CallMixin:
         else:
             st.assume(t.t >= 0)
         st.ghost["__clock__"] = t
+        st.emit("clock", t=t)
         return t
 
     def getattr_default(self, o, nm, default, st):
